@@ -61,6 +61,14 @@ func ipBytes(ip net.IP) []byte {
 
 func (f *fakeDriver) record(m string, ip net.IP, port int, req []byte) {
 	f.calls = append(f.calls, Call{m, append([]byte{}, ipBytes(ip)...), port, append([]byte{}, req...)})
+	if f.scribble { // the driver owns what it is handed: the library must not rely on it afterwards
+		for i := range ip {
+			ip[i] ^= 0xa5
+		}
+		for i := range req {
+			req[i] ^= 0x5a
+		}
+	}
 }
 
 func (f *fakeDriver) hand(b []byte) []byte {
